@@ -21,6 +21,7 @@ Verdict0(e, i) ==
     CASE e.e = "OvBin" -> JudgeOvBin(e, i)
       [] e.e = "OvUn" -> JudgeOvUn(e, i)
       [] e.e = "OvConvInt" -> JudgeOvConvInt(e, i)
+      [] e.e = "OvConvF" -> JudgeOvConvF(e, i)
       [] e.e = "ScBin" -> JudgeScBin(e, i)
       [] e.e = "ScUn" -> JudgeScUn(e, i)
       [] e.e = "ScCmp" -> JudgeScCmp(e, i)
